@@ -72,7 +72,7 @@ def env():
     for c in range(NCLS):
         name = 'C07K%d' % c
         classes.append(type(name, (SQLObject,), {'n': IntCol(), 'm': IntCol()}))
-    d = tempfile.mkdtemp(prefix='verif_c07_')
+    d = tempfile.mkdtemp(prefix='verif_c07_', dir='/dev/shm' if os.access('/dev/shm', os.W_OK) else None)
     atexit.register(shutil.rmtree, d, True)
     _env.update(classes=classes, dir=d, count=[0])
     gc.collect()
@@ -220,7 +220,7 @@ class World:
             if cf.cullCount >= count and not self.explicit_cull == (sd, c):
                 continue
             moved = [k for k in keys if k not in cf.cache]
-            out.append('purge %s' % sd)
+            out.append('purge %s %d' % (sd, c))
             for k in moved:
                 out.append('weaken %s %d' % (sd, c * 1000 + k))
             self.need_gc = True
@@ -238,14 +238,14 @@ class World:
         view_before = self.view_now
         pre = {}
         if kind == 'commit' and not self.obsolete:
-            for j in self.live('P'):
+            for j in self.alive('P'):
                 k = self.keyof['P'][j]
-                pre[j] = (self.try_get('P', k) is self.held['P'][j],
+                pre[j] = (self.try_get('P', k) is self.refs['P'][j](),
                           self.try_get('T', k) is not None or k in self.txdel,
                           any(self.keyof['T'][i] == k and r() is not None for i, r in enumerate(self.refs['T'])))
         if kind == 'rollback' and not self.obsolete:
-            for j in self.live('T'):
-                pre[j] = self.try_get('T', self.keyof['T'][j]) is self.held['T'][j]
+            for j in self.alive('T'):
+                pre[j] = self.try_get('T', self.keyof['T'][j]) is self.refs['T'][j]()
         was_obsolete = self.obsolete
         cs = self.cull_state()
         self.explicit_cull = None
@@ -457,8 +457,12 @@ class World:
         # --- every cached value of every held instance: parent side = committed rows, transaction side = its own view
         for s2 in 'PT':
             ref = raw if (s2 == 'P' or view is None) else view
-            for j in self.live(s2):
-                vals = self.peek(self.held[s2][j])
+            for j in self.alive(s2):
+                inst = self.refs[s2][j]()
+                if inst is None:
+                    continue
+                vals = self.peek(inst)
+                del inst
                 if all(v is MISSING for v in vals):
                     self.taint[s2].discard(j)
                     self.stale[s2].discard(j)
@@ -625,6 +629,9 @@ CORPUS = [
     ('tx instance detached: second rollback does not reach it', True,
      [('create', 'P', 1, 1, 0), ('get', 'T', 1, False), ('rollback',), ('begin',), ('read', 'T', 0, 0),
       ('set', 'T', 0, 0, 7), ('rollback',), ('begin',), ('read', 'T', 0, 0)], K_RBDET),
+    ('dead weakref entry shadows the strong entry in tryGet: rollback does not reach the new instance', True,
+     [('create', 'P', 1, 1, 0), ('get', 'T', 1, False), ('cull', 'T', 0), ('drop', 'T', 0), ('destroy', 'P', 0),
+      ('create', 'T', 1, 5, 5), ('rollback',), ('begin',), ('read', 'T', 1, 0)], K_RBDET),
     ('deleted in tx, commit -> NotFound on parent', True,
      [('create', 'P', 1, 1, 0), ('create', 'P', 1001, 4, 4), ('get', 'T', 1, False), ('destroy', 'T', 0), ('read', 'P', 0, 0),
       ('get', 'P', 1, False), ('commit', 0), ('read', 'P', 0, 0), ('get', 'P', 1, False), ('select', 'P', 0), ('select', 'T', 0)], None),
@@ -704,7 +711,7 @@ def run(ctx):
         lines, impl, fails = run_ops(dc, ops)
         ctx.case(('corpus', name), sample={'corpus': name, 'answers': impl[-2:]}, kind='corpus')
         report(ctx, name, dc, ops, lines, impl, fails, expect)
-    n = ctx.budget(450, 12000)
+    n = ctx.budget(1500, 20000)
     for h in range(n):
         dc = rng.random() < 0.8
         length = rng.randint(4, 30 if ctx.tier == 'quick' else 60)
